@@ -209,7 +209,9 @@ type baseline struct {
 	ok                            bool
 }
 
-const stallAfter = 2 * time.Second
+var stallAfter = 10 * time.Second
+
+var stallsSeen int // after a few stalls (each reported) the rest of the run uses a short watchdog
 
 // runOne executes one handshake with one fault on the side under test and returns the trace.
 func runOne(r Run) ([]vt.Ev, baseline) {
@@ -316,12 +318,15 @@ func runOne(r Run) ([]vt.Ev, baseline) {
 	select {
 	case <-sutDone:
 	case <-time.After(func() time.Duration {
-		if r.Fault.Kind == "cancel" {
-			return stallAfter + 3*time.Second
+		if r.Fault.Kind == "cancel" || stallsSeen >= 3 {
+			return stallAfter
 		}
-		return 15 * time.Second
+		return 30 * time.Second
 	}()):
 		stalled = true
+		if stallsSeen++; stallsSeen >= 3 {
+			stallAfter = 2 * time.Second
+		}
 	}
 	if stalled {
 		lg.Add(vt.Ev{"ev": "stall"})
